@@ -116,6 +116,40 @@ fn unswept_spec(ctx: &Ctx, shards: usize) -> SeqSpec {
     }
 }
 
+/// A cache that is exactly as large as everything that can be demanded at once (three keys of weight 30, W = 90): keys
+/// come and go (deletes, expiries, re-puts with and without TTL); whatever the bookkeeping did with the departed lives,
+/// the live keys always fit and none may be lost.
+fn exact_fit_spec(ctx: &Ctx) -> SeqSpec {
+    let quick = ctx.quick();
+    SeqSpec {
+        name: "seq/no-spurious-loss/exact-fit/W=90".into(),
+        setup: Setup { weight: 90, shards: 2, counters: 2, buffer: 1, weight_fn: WeightFn::Const { c: 30, ttl_extra: 0 }, ..Setup::default() },
+        world: Default::default(),
+        prefix: vec![],
+        alphabet: vec![
+            Op::Put { k: 1, w: Some(30), ttl_ms: Some(1000) },
+            Op::Put { k: 1, w: Some(30), ttl_ms: None },
+            Op::Delete { k: 1 },
+            Op::Put { k: 2, w: Some(30), ttl_ms: Some(5000) },
+            Op::Put { k: 2, w: None, ttl_ms: None },
+            Op::Delete { k: 2 },
+            Op::Put { k: 3, w: Some(30), ttl_ms: None },
+            Op::Advance { ms: 1000 },
+            Op::Advance { ms: 2000 },
+            Op::TickWait,
+            Op::ReadAll { keys: vec![1, 2, 3] },
+        ],
+        depth: if quick { 6 } else { 8 },
+        allow: None,
+        oracle: seq_oracle(),
+        keys: vec![1, 2, 3],
+        canon_sketch: true,
+        ghost_key: Some(ghost_key(false)),
+        max_states: if quick { 80_000 } else { 3_000_000 },
+        time_cap_s: if quick { 10.0 } else { 600.0 },
+    }
+}
+
 /// Histories that start with a time-to-live that was shortened (into another expiry shard) and then lengthened or removed:
 /// the clock walks through the first two deadlines with sweeps at every position; the key must survive both.
 fn ttl_chain_spec(ctx: &Ctx, shards: usize, remove: bool) -> SeqSpec {
@@ -300,6 +334,7 @@ pub fn def(ctx: &Ctx) -> PropertyDef {
         let name = unswept_spec(ctx, shards).name;
         scenarios.push(seq_scenario(move |c| unswept_spec(c, shards), &name));
     }
+    scenarios.push(seq_scenario(exact_fit_spec, "seq/no-spurious-loss/exact-fit/W=90"));
     for shards in [2usize, 4] {
         for remove in [false, true] {
             let name = ttl_chain_spec(ctx, shards, remove).name;
